@@ -940,7 +940,7 @@ example : (isoGetMapping (pTwo (some [10, 20, 21]))).map List.length = some 4 :=
 /-! ### the stereo post-filter on concrete values (hypotheses of the stereo theorems are satisfiable) -/
 
 section stereoExamples
-open ChythonModel.Model.Stereo ChythonModel.Spec.StereoMatch
+open ChythonModel.Model.Stereo ChythonModel.Spec ChythonModel.Spec.StereoMatch
 
 /-- the star: centre 2 with neighbours 1, 3, 4, 5 — query `[A][C@]([A])([A])[A]` and target `F[C@](Cl)(Br)I` share the shape -/
 def qStar : Graph := ⟨[1, 2, 3, 4, 5], [(1, [2]), (2, [1, 3, 4, 5]), (3, [2]), (4, [2]), (5, [2])]⟩
@@ -1009,6 +1009,75 @@ example : pickNeighbours qButene [(1, 1), (2, 2), (3, 3), (4, 4)] (reverseDict [
 
 example : EndsWF ⟨1, 4, none, none⟩ (fun _ => false) :=
   ⟨rfl, rfl, by simp, by simp, by decide, by simp, by simp, by simp, by simp, by simp⟩
+
+/-! ### invariance under automorphisms of the query -/
+
+/-- **rearranged neighbours**: two (mapping, marked atom) pairs that reach the same labelled centre and list its four neighbours
+    as `e1` resp. `e2` (e.g. `m2 = m1 ∘ σ` for an automorphism `σ` of the query, `n1 = σ n2`): the two steps give DIFFERENT answers
+    iff exactly one of "the marks differ", "`e2` is an odd rearrangement of `e1`" holds.  In particular an automorphism that
+    rearranges the neighbours evenly and keeps the mark, or oddly and inverts it, does not change the outcome. -/
+theorem mark_tetra_rearrangement (q : Graph) (tl : TLabels) (m1 m2 : Dict) (n1 n2 x : Nat) (mark1 mark2 s : Bool)
+    (a b c d : Nat) (e1 e2 : List Nat) (hm1 : m1.lookup n1 = some x) (hm2 : m2.lookup n2 = some x) (hl : tl.atom x = some s)
+    (ht : tl.tetra.lookup x = some [a, b, c, d]) (hnd : [a, b, c, d].Nodup)
+    (he1 : imagesOf m1 (q.nbrs n1) = .ok e1) (he2 : imagesOf m2 (q.nbrs n2) = .ok e2)
+    (hp1 : e1.Perm [a, b, c, d]) (hp2 : e2.Perm [a, b, c, d]) :
+    ∃ r1 r2, atomStep q tl m1 n1 mark1 = .ok r1 ∧ atomStep q tl m2 n2 mark2 = .ok r2 ∧
+      ((r1 != r2) = ((mark1 != mark2) ^^ relOdd e1 e2)) := by
+  obtain ⟨t1, t2, h1, h2, hodd⟩ := translateTetra_change_iff_odd a b c d hnd e1 e2 hp1 hp2 tl.isH none s
+  refine ⟨t1 == mark1, t2 == mark2, ?_, ?_, ?_⟩
+  · rw [atomStep_tetra q tl m1 n1 x mark1 s _ e1 hm1 hl ht he1, h1]
+  · rw [atomStep_tetra q tl m2 n2 x mark2 s _ e2 hm2 hl ht he2, h2]
+  · rw [← hodd]
+    cases t1 <;> cases t2 <;> cases mark1 <;> cases mark2 <;> rfl
+
+/-- **the filter is invariant under automorphisms of the query that preserve marks**: let `σ` permute the query atoms and `β`
+    the query bonds, carrying marked elements to marked elements, such that every step on `m'` (think `m ∘ σ`) passes iff the
+    step on the corresponding element of `m` passes (for tetrahedral marks this is `mark_tetra_rearrangement`: even
+    rearrangement with the same mark, odd one with the inverted mark).  Then `m'` is yielded iff `m` is — whatever the order in
+    which the loops visit the atoms and bonds. -/
+theorem keep_invariant_under_automorphism (q : Graph) (qm : QMarks) (tl : TLabels) (m m' : Dict)
+    (σ : Nat → Nat) (β : Nat × Nat → Nat × Nat)
+    (hσ : ∀ n ∈ q.atoms, σ n ∈ q.atoms) (hσs : ∀ n ∈ q.atoms, ∃ k ∈ q.atoms, σ k = n)
+    (hβ : ∀ b ∈ bondsOf q, β b ∈ bondsOf q) (hβs : ∀ b ∈ bondsOf q, ∃ k ∈ bondsOf q, β k = b)
+    (hma : ∀ n ∈ q.atoms, (qm.atom (σ n)).isSome = (qm.atom n).isSome)
+    (hmb : ∀ b ∈ bondsOf q, (qm.bond (β b).1 (β b).2).isSome = (qm.bond b.1 b.2).isSome)
+    (hsa : ∀ n ∈ q.atoms, ∀ mark mark', qm.atom n = some mark → qm.atom (σ n) = some mark' →
+      (atomStep q tl m' n mark = .ok true ↔ atomStep q tl m (σ n) mark' = .ok true))
+    (hsb : ∀ b ∈ bondsOf q, ∀ mark mark', qm.bond b.1 b.2 = some mark → qm.bond (β b).1 (β b).2 = some mark' →
+      (bondStep q tl m' b.1 b.2 mark = .ok true ↔ bondStep q tl m (β b).1 (β b).2 mark' = .ok true)) :
+    keepMapping q qm tl m' = .ok true ↔ keepMapping q qm tl m = .ok true := by
+  rw [keep_iff_every_mark_passes, keep_iff_every_mark_passes]
+  constructor
+  · rintro ⟨ha, hb⟩
+    refine ⟨fun n hn mark' hm => ?_, fun b hbm mark' hm => ?_⟩
+    · obtain ⟨k, hk, rfl⟩ := hσs n hn
+      have := hma k hk
+      rw [hm] at this
+      obtain ⟨mark, hmk⟩ := Option.isSome_iff_exists.1 this.symm
+      exact (hsa k hk mark mark' hmk hm).1 (ha k hk mark hmk)
+    · obtain ⟨k, hk, rfl⟩ := hβs b hbm
+      have := hmb k hk
+      rw [hm] at this
+      obtain ⟨mark, hmk⟩ := Option.isSome_iff_exists.1 this.symm
+      exact (hsb k hk mark mark' hmk hm).1 (hb k hk mark hmk)
+  · rintro ⟨ha, hb⟩
+    refine ⟨fun n hn mark hm => ?_, fun b hbm mark hm => ?_⟩
+    · have := hma n hn
+      rw [hm] at this
+      obtain ⟨mark', hmk⟩ := Option.isSome_iff_exists.1 this
+      exact (hsa n hn mark mark' hm hmk).2 (ha (σ n) (hσ n hn) mark' hmk)
+    · have := hmb b hbm
+      rw [hm] at this
+      obtain ⟨mark', hmk⟩ := Option.isSome_iff_exists.1 this
+      exact (hsb b hbm mark mark' hm hmk).2 (hb (β b) (hβ b hbm) mark' hmk)
+
+/-- the star again: `m' = m ∘ σ` for the three-cycle `σ = (1 3 4)` of the neighbours (an automorphism of the query that keeps the
+    mark): the listed orders `[3, 4, 1, 5]` and `[1, 3, 4, 5]` are an even rearrangement of each other and both pass -/
+example : imagesOf [(1, 3), (2, 2), (3, 4), (4, 1), (5, 5)] (qStar.nbrs 2) = .ok [3, 4, 1, 5] ∧
+    relOdd [1, 3, 4, 5] [3, 4, 1, 5] = false ∧
+    keepMapping qStar qmStar (tlStar true) [(1, 3), (2, 2), (3, 4), (4, 1), (5, 5)] = .ok true ∧
+    keepMapping qStar qmStar (tlStar true) [(1, 1), (2, 2), (3, 3), (4, 4), (5, 5)] = .ok true := by
+  refine ⟨by decide, by decide, by decide, by decide⟩
 
 end stereoExamples
 
